@@ -15,6 +15,12 @@ fn common_prefix(a: &str, b: &str) -> usize {
 pub fn check_pair(ctx: &mut Ctx, gi: &GInfo, rule: usize, host: &str, a: Form, b: Form) -> CaseResult {
     ctx.ev.eval();
     let name = gi.rules[rule].0.clone();
+    for f in [a, b] {
+        let (lo, hi) = f.bounds(host.len());
+        if !well_founded(ctx, gi, rule, host, lo, hi) {
+            return CaseResult::Ok;
+        }
+    }
     let o = gi.g.typed_pair(rule, host, a, b);
     let detail = json!({"a": format!("{:?}", a), "b": format!("{:?}", b)});
     if let Some(p) = &o.panicked {
@@ -108,6 +114,9 @@ pub fn case_history(ctx: &mut Ctx, world: &World, gi: &GInfo, rule: usize, tape:
     let mut t = Tape::new(tape);
     let name = gi.rules[rule].0.clone();
     let input: String = gi.sg.input(&name, &mut t).chars().take(40).collect();
+    if !well_founded(ctx, gi, rule, &input, 0, input.len()) {
+        return CaseResult::Ok;
+    }
     let probe = |entry: Entry| gi.g.typed(Req { rule, entry, form: Form::Str, deep: true }, &input);
     let before: Vec<Obs> = [Entry::ParsePartial, Entry::ParseFull, Entry::CheckFull].iter().map(|e| probe(*e)).collect();
     let n = t.below(6);
@@ -118,7 +127,7 @@ pub fn case_history(ctx: &mut Ctx, world: &World, gi: &GInfo, rule: usize, tape:
         let or = t.below(og.rules.len());
         let oin: String = og.sg.input(&og.rules[or].0, &mut t).chars().take(30).collect();
         let entry = [Entry::ParsePartial, Entry::ParseFull, Entry::CheckPartial, Entry::CheckFull, Entry::ParsePartialWith][t.below(5)];
-        if crate::interp::run(og.ir, &crate::interp::Cfg::default(), &og.rules[or].0, &oin, 0, oin.len()).defined() {
+        if well_founded(ctx, og, or, &oin, 0, oin.len()) {
             let o = og.g.typed(Req { rule: or, entry, form: Form::Str, deep: false }, &oin);
             hist.push(json!({"grammar": og.g.id(), "rule": og.rules[or].0, "input": show(&oin), "entry": format!("{:?}", entry), "ok": o.ok}));
         }
